@@ -539,6 +539,11 @@ func runC18(c *Ctx) {
 	}
 
 	o = c.Obl("R3", fname(dr), "dpipe Read takes one message per data return from the read channel and returns min(len(message), len(buffer)) bytes", 1)
+	type oldFail struct {
+		pos token.Pos
+		msg string
+	}
+	var oldFails []oldFail
 	var msg ssa.Value
 	for _, cm := range commsOfU(dr) {
 		if cm.Dir == types.RecvOnly && chanRole(cm.Chan) == "field dpipe.conn."+rField && cm.Sel != nil {
@@ -575,7 +580,7 @@ func runC18(c *Ctx) {
 					})
 				}
 				if !okHi {
-					o.Fail(in.Pos(), "Read re-slices the caller's slice up to a bound that is not known to be within its length (it can reach into the capacity behind it)")
+					oldFails = append(oldFails, oldFail{in.Pos(), "Read re-slices the caller's slice up to a bound that is not known to be within its length (it can reach into the capacity behind it)"})
 				}
 			}
 		})
@@ -598,7 +603,7 @@ func runC18(c *Ctx) {
 					cm, ok := normCmp(ft.Cond, ft.Val)
 					return ok && cm.Op == token.LEQ && isLenOf(cm.X, func(v ssa.Value) bool { return v == msg }) && isLenOf(cm.Y, func(v ssa.Value) bool { return sameOrigin(v, ssa.Value(buf)) })
 				}) {
-					o.Fail(ret.Pos(), "Read reports len(message) bytes although the buffer may be shorter (more bytes reported than copied)")
+					oldFails = append(oldFails, oldFail{ret.Pos(), "Read reports len(message) bytes although the buffer may be shorter (more bytes reported than copied)"})
 				}
 			case isLenOf(n, func(v ssa.Value) bool { return sameOrigin(v, ssa.Value(buf)) }):
 			default:
@@ -634,7 +639,19 @@ func runC18(c *Ctx) {
 						break
 					}
 				}
-				o.Fail(ret.Pos(), "the byte count returned is neither len(message) nor len(buffer)")
+				oldFails = append(oldFails, oldFail{ret.Pos(), "the byte count returned is neither len(message) nor len(buffer)"})
+			}
+		}
+		// the same two questions path by path (helpers inlined, values resolved on the path): decisive where it
+		// finds message-returning paths; the shape-based findings above stand only where it finds none
+		nMsgPaths, pathProblems := dpipeReadPaths(o, dr, rField)
+		if nMsgPaths > 0 {
+			for _, pr := range pathProblems {
+				o.Fail(pr.pos, "%s", pr.msg)
+			}
+		} else {
+			for _, f := range oldFails {
+				o.Fail(f.pos, "%s", f.msg)
 			}
 		}
 		// exactly one receive per return: the receive is not in an inner loop with another receive before returning
@@ -1261,4 +1278,143 @@ func appendOf(v ssa.Value, depth int) (dst, src ssa.Value, ok bool) {
 		return x
 	}
 	return sub(d), sub(s), true
+}
+
+type posMsg struct {
+	pos token.Pos
+	msg string
+}
+
+// dpipeReadPaths: along every complete path of dpipe Read that received a message from the read channel and returns
+// without error: the count returned is len(buffer), a copy count, or len(message) on a path that has established
+// len(message) <= len(buffer); and every re-slice of the caller's slice has such a bound.
+func dpipeReadPaths(o *Obligation, dr *ssa.Function, rField string) (int, []posMsg) {
+	paths, ok := enumIterPathsU(dr, 50000)
+	if !ok {
+		return 0, nil
+	}
+	buf := dr.Params[1]
+	var probs []posMsg
+	seenP := map[string]bool{}
+	add := func(pos token.Pos, m string) {
+		k := fmt.Sprint(pos, m)
+		if !seenP[k] {
+			seenP[k] = true
+			probs = append(probs, posMsg{pos, m})
+		}
+	}
+	n := 0
+	sited := map[token.Pos]bool{}
+	for pi := range paths {
+		pt := &paths[pi]
+		ret, isRet := pt.last().(*ssa.Return)
+		if !isRet || pt.Loop || ret.Parent() != dr {
+			continue
+		}
+		var msg ssa.Value
+		isLenOfP := func(v ssa.Value, idx int, want func(ssa.Value) bool) bool {
+			cl, ok := strip(pt.valueAt(v, idx)).(*ssa.Call)
+			if !ok {
+				return false
+			}
+			b, ok := cl.Call.Value.(*ssa.Builtin)
+			if !ok || b.Name() != "len" {
+				return false
+			}
+			// the argument as seen where the len was taken
+			at := pt.indexOf(cl)
+			if at < 0 {
+				at = idx
+			}
+			return want(pt.valueAt(cl.Call.Args[0], at))
+		}
+		isMsg := func(x ssa.Value) bool { return msg != nil && x == msg }
+		isBuf := func(x ssa.Value) bool { return sameOrigin(x, ssa.Value(buf)) || x == ssa.Value(buf) }
+		fits := func(upto int) bool {
+			ci := 0
+			for j, in := range pt.Instrs[:upto] {
+				if _, isIf := in.(*ssa.If); !isIf {
+					continue
+				}
+				my := ci
+				ci++
+				if my >= len(pt.Conds) {
+					break
+				}
+				cm, ok := normCmp(pt.Conds[my].Cond, pt.Conds[my].Val)
+				if !ok || (cm.Op != token.LEQ && cm.Op != token.LSS && cm.Op != token.EQL) {
+					continue
+				}
+				if isLenOfP(cm.X, j, isMsg) && isLenOfP(cm.Y, j, isBuf) {
+					return true
+				}
+			}
+			return false
+		}
+		okBound := func(v ssa.Value, idx int) bool {
+			if isLenOfP(v, idx, isBuf) {
+				return true
+			}
+			if cl, ok := strip(pt.valueAt(v, idx)).(*ssa.Call); ok && (isCall(cl, "builtin.copy") || isCall2(cl, "builtin.min")) {
+				return true
+			}
+			return isLenOfP(v, idx, isMsg) && fits(idx)
+		}
+		for idx, in := range pt.Instrs {
+			switch x := in.(type) {
+			case *ssa.Extract:
+				if sel, ok := x.Tuple.(*ssa.Select); ok && isByteSlice(x.Type()) {
+					k := selCaseOnPathAt(pt, sel, pt.indexOf(sel))
+					if k >= 0 && k < len(sel.States) && sel.States[k].Dir == types.RecvOnly {
+						if fr, ok := asFieldLoad(pt.valueAt(sel.States[k].Chan, idx)); ok && fr.SName == "dpipe.conn" && fr.Field == rField {
+							// the received value of state k: tuple index 2 + number of receive states before k
+							r := 0
+							for i := 0; i < k; i++ {
+								if sel.States[i].Dir == types.RecvOnly {
+									r++
+								}
+							}
+							if x.Index == 2+r {
+								msg = x
+							}
+						}
+					}
+				}
+			case *ssa.UnOp:
+				if x.Op == token.ARROW && isByteSlice(x.Type()) {
+					if fr, ok := asFieldLoad(pt.valueAt(x.X, idx)); ok && fr.SName == "dpipe.conn" && fr.Field == rField {
+						msg = x
+					}
+				}
+			case *ssa.Slice:
+				if x.High != nil && isBuf(pt.valueAt(x.X, idx)) && !okBound(x.High, idx) {
+					add(x.Pos(), "Read re-slices the caller's slice up to a bound that is not known to be within its length (it can reach into the capacity behind it)")
+				}
+			}
+		}
+		if msg == nil {
+			continue
+		}
+		if e := errorOperand(ret); e == nil || !isNilConst(strip(pt.valueAt(e, len(pt.Instrs)-1))) {
+			continue
+		}
+		n++
+		last := len(pt.Instrs) - 1
+		rv := retValAt(ret, 0)
+		if len(rv) != 1 {
+			continue
+		}
+		if !sited[ret.Pos()] {
+			sited[ret.Pos()] = true
+			o.Site(ret.Pos(), "path returning a message")
+		}
+		if !okBound(rv[0], last) {
+			if isLenOfP(rv[0], last, isMsg) {
+				add(ret.Pos(), "Read reports len(message) bytes although the buffer may be shorter (more bytes reported than copied)")
+			} else {
+				add(ret.Pos(), "the byte count returned is neither len(message) nor len(buffer)")
+			}
+		}
+	}
+	return n, probs
 }
